@@ -142,3 +142,5 @@ def run(ctx):
     ctx.cov["tour_histories_total"] = sum(len(h) for h in tours.values())
     ctx.cov["tour_histories_replayed"] = total
     ctx.validate("Radix", "RadixConcTrace", "RadixConcTrace.cfg", tp_all, "radixconc TLC schedules", keyfn=key)
+    from props import witness
+    witness.tsan_witness(ctx)
